@@ -509,7 +509,11 @@ def _main(prop, tier, seed, replay, tmpdir, t0):
         if bad:
             raise BuildError("forbidden declarations: " + "; ".join(bad[:5]))
         coq_build()
-        ths, ass, _ = check_props(prop.PROPS)
+        ths, ass = [], {}
+        for pf in (prop.PROPS if isinstance(prop.PROPS, (list, tuple)) else [prop.PROPS]):
+            t1, a1, _ = check_props(pf)
+            ths += t1
+            ass.update(a1)
         proof_state["theorems"] = ths
         proof_state["assumptions"] = ass
         notallowed = {t: [a for a in axs if a not in ALLOWED_AXIOMS] for t, axs in ass.items()}
@@ -518,7 +522,8 @@ def _main(prop, tier, seed, replay, tmpdir, t0):
             raise BuildError("theorems depend on axioms outside the stated base: %s" % notallowed)
         if tier == "thorough" and not os.environ.get("VERIF_NO_COQCHK"):
             # independent re-check of the compiled property file and everything it depends on
-            mod = "PB." + prop.PROPS[:-2].replace("/", ".")
+            pfs = prop.PROPS if isinstance(prop.PROPS, (list, tuple)) else [prop.PROPS]
+            mod = " ".join("PB." + pf[:-2].replace("/", ".") for pf in pfs)
             rc, out = _sh("timeout 2400 coqchk -o -silent -Q theories PB %s" % mod, 2500, cwd=COQ)
             m = re.search(r"\* Axioms:(.*?)\n\s*\n\* Constants/Inductives relying on type-in-type", out, flags=re.S)
             axs = m.group(1).strip() if m else "?"
@@ -648,7 +653,7 @@ def _main(prop, tier, seed, replay, tmpdir, t0):
         samples.append({"case": c, "observed": o})
     samples = samples[:3]
     for t in proof_state["theorems"][:3]:
-        samples.append({"obligation": t, "file": "coq/theories/" + prop.PROPS})
+        samples.append({"obligation": t, "file": "coq/theories/" + str(prop.PROPS)})
     ev = {
         "property_id": prop_id,
         "tier": tier,
@@ -658,7 +663,7 @@ def _main(prop, tier, seed, replay, tmpdir, t0):
         "coverage": {
             "obligations": max(nth, 1) if not proof_state["error"] else max(nth, 1),
             "discharged": nth if not proof_state["error"] else 0,
-            "checker_cmd": "make -C coq (coqc 8.16.1, full .vo build) + coqc theories/%s with Print Assumptions under every theorem; case files evaluated by vm_compute" % prop.PROPS,
+            "checker_cmd": "make -C coq (coqc 8.16.1, full .vo build) + coqc theories/%s with Print Assumptions under every theorem; case files evaluated by vm_compute" % (prop.PROPS,),
             "trusted_base": [
                 "Coq 8.16.1 kernel and its vm_compute bytecode VM (no native_compute)",
                 "axioms reported by Print Assumptions: " + (
